@@ -74,7 +74,9 @@ impl Decoder {
                     self.state = RecvState::Dropping(remaining_length - to_drop)
                 }
 
-                (None, data.split_to(to_drop))
+                // the dropped bytes are gone, the rest belongs to the next record
+                data.advance(to_drop);
+                (None, data)
             }
         }
     }
